@@ -66,6 +66,7 @@ EJ(e) ==
       rows |-> [k \in 1..ke |-> RowSeq(rs[k])],
       ints |-> [k \in 1..ke |-> IntS(rs[k], TLo, THi)],
       int1 |-> [k \in 1..ke |-> Int1(rs[k], TLo, THi)],
+      q    |-> \A k \in 1..ke : SignQ(rs[k], TLo, THi),    \* |f| is piecewise linear on the quarter lattice: int1 is exact
       int2 |-> [k \in 1..ke |-> IP(rs[k], rs[k], TLo, THi)],
       sup  |-> [k \in 1..ke |-> SupN(rs[k], TLo, THi)],
       bp   |-> IF e.op = "land" THEN [k \in 1..ke |-> BreakPts(rs[k], TLo, THi)] ELSE <<>>,
